@@ -320,7 +320,8 @@ class Responder(object):
         """
         Close any resources
         """
-        if not self.closed and not self.ended:
+        if not self.closed and not self.ended and self.started:
+            # only once start_response has been called, write asserts that
             self.write(b'')  # in case chunked send empty chunk to terminate
         self.ended = True
         self.closed = True
